@@ -51,11 +51,13 @@ def split_waterfall_generator(waterfall_fn, fchans, tchans=None, f_shift=None):
         raise ValueError('tchans value must be less than the total number of \
                           time samples in the observation')
 
-    # Note that df is negative!
-    f_start, f_stop = fch1, fch1 + fchans * df
-
-    # Iterates down frequencies, starting from highest
-    while np.abs(f_stop - fch1) <= np.abs(nchans * df):
+    # Iterates through the file's channels, starting from the first. The window
+    # is tracked by channel index: comparing accumulated floating point
+    # frequencies against the band edge can miss the last window.
+    chan_start = 0
+    while chan_start + fchans <= nchans:
+        f_start = fch1 + chan_start * df
+        f_stop = fch1 + (chan_start + fchans) * df
         fmin, fmax = np.sort([f_start, f_stop])
         waterfall = Waterfall(waterfall_fn,
                               f_start=fmin,
@@ -65,8 +67,7 @@ def split_waterfall_generator(waterfall_fn, fchans, tchans=None, f_shift=None):
 
         yield waterfall
 
-        f_start += f_shift * df
-        f_stop += f_shift * df
+        chan_start += f_shift
 
 
 def split_fil(waterfall_fn, output_dir, fchans, tchans=None, f_shift=None):
